@@ -116,15 +116,37 @@ def render_rel(rel, n, sch, loc=None):
     return "%s %s %s" % (lhs, op, out), out
 
 
+SPACINGS = ("asis", "airy", "tight", "wide")
+
+
+def respace(text, spacing):
+    """the same text with other white space (which carries no meaning in a system): blanks around every * and /,
+    no blanks at all, doubled blanks with a tab after the comparator"""
+    import re
+    if spacing == "airy":
+        return "\n".join(re.sub(r"\s*([*/])\s*", r" \1 ", ln).replace(" *  * ", "**") for ln in text.split("\n"))
+    if spacing == "tight":
+        return "\n".join(ln.replace(" ", "") for ln in text.split("\n"))
+    if spacing == "wide":
+        cmp_ = re.compile(r"(<=|>=|!=|==|<|>|=)")
+        return "\n".join(cmp_.sub(lambda m: m.group(1) + "\t", ln.replace(" ", "  "), count=1) for ln in text.split("\n"))
+    return text
+
+
 def render_sys(rels, n, sch):
-    """text of a system (list of relation records) -> (text, locals dict, [rhs texts])"""
+    """text of a system (list of relation records) -> (text, locals dict, [rhs texts]); under every scheme but the
+    plain one ('x') the white space of the text rotates with the text itself (SPACINGS)"""
+    import zlib
     loc = {}
     lines, rhss = [], []
     for r in rels:
         t, rhs = render_rel(r, n, sch, loc)
         lines.append(t)
         rhss.append(rhs)
-    return "\n".join(lines), loc, rhss
+    text = "\n".join(lines)
+    if sch.name != "x":
+        text = respace(text, SPACINGS[zlib.crc32(text.encode()) % len(SPACINGS)])
+    return text, loc, rhss
 
 
 def check_rendering(rhs_text, sch, loc, x, expected):
